@@ -50,6 +50,11 @@ def err_name(ex):
 
     if isinstance(ex, configparser.Error):
         return "ini"
+    tb = ex.__traceback__
+    while tb is not None and tb.tb_next is not None:
+        tb = tb.tb_next
+    if tb is not None and tb.tb_frame.f_code.co_filename.endswith("configparser.py"):
+        return "ini"  # e.g. AttributeError for a continuation line after a valueless option (Python < 3.13)
     return f"other:{type(ex).__name__}"
 
 
@@ -125,8 +130,8 @@ class Ref:
     def view(self):
         """sections → keys → entry, every (section, key) defined by a listed profile"""
         out = {}
-        for p in self.profiles:
-            for s, d in self.store.get(p, {}).items():
+        for p in reversed(self.profiles):  # dict order of the view: lowest priority first (matters only for
+            for s, d in self.store.get(p, {}).items():  # which entries a refused multi-entry update got through)
                 for k in d:
                     out.setdefault(s, {}).setdefault(k, None)
         for s in out:
@@ -587,14 +592,31 @@ def oracle_replace(op, obs, rep, step):
     if obs.startswith("err:") and not any(m.group(2) for m in VAR_RE.finditer(v)):
         rep.violate("replace:raises", f"entry.replace on {v!r} with {allvars} raised {obs}", step)
         return
-    # plain `{name}` references of known, brace-free values are replaced textually; the rest stays
-    if all(m.group(2) is None for m in VAR_RE.finditer(v)) and op.get("default") is None and all(
-            "{" not in str(allvars[k]) for k in known):
+    # plain `{name}` references (no format spec) are replaced textually, also inside the replacement
+    # texts (nested), until no known reference is left; unknown references stay as they are
+    def plain(txt):
+        return all(m.group(2) is None for m in VAR_RE.finditer(txt))
+
+    reach, todo = set(), list(known)
+    while todo:
+        k = todo.pop()
+        if k in reach:
+            continue
+        reach.add(k)
+        todo += [m.group(1) for m in VAR_RE.finditer(str(allvars[k])) if m.group(1) in allvars]
+    if plain(v) and op.get("default") is None and all(plain(str(allvars[k])) for k in reach):
         want = v
-        for k in dict.fromkeys(known):
-            want = want.replace("{" + k + "}", str(allvars[k]))
+        for _ in range(20):
+            nxt = want
+            for k in allvars:
+                nxt = nxt.replace("{" + k + "}", str(allvars[k]))
+            if nxt == want:
+                break
+            want = nxt
+        else:
+            return  # cyclic definitions
         if obs != "ok:" + hexs(want):
-            rep.violate("replace:known-variable", f"entry.replace on {v!r} gave {describe_x(obs)}, expected {want!r}", step)
+            rep.violate("replace:known-variable", f"entry.replace on {v!r} with {allvars} gave {describe_x(obs)}, expected {want!r}", step)
 
 
 def describe_x(obs):
@@ -1007,6 +1029,54 @@ def library_users(ctx):
                 ctx.violate("constant:lookup", f"constant.get({sec!r}, source={k!r}) gave {got!r}, the file says {v!r}",
                             {"constant": sec, "source": k})
     ctx.count("constants-checked", n)
+    files_user(ctx)
+
+
+def files_user(ctx):
+    """config.files.FileConfiguration.path: directory/filename entries with {variables}, the {gz} marker that must
+    survive replacement as an unknown variable, a default for unknown variables, aliases looked up with
+    get(…, default="") through a fallback configuration that lacks the section"""
+    from pathlib import Path as P
+
+    from midgard.config.files import FileConfiguration
+
+    rng = ctx.rng
+    for n in range(60):
+        fc = FileConfiguration("files")
+        other = FileConfiguration("other")
+        other.update("elsewhere", "filename", "x")
+        if n % 2:
+            fc.fallback_config = other
+        year, name = str(rng.randint(1990, 2030)), rng.choice(["one", "two", "abc"])
+        d = rng.choice(["/data/{year}", "/data/{year}/{unknown}", "/tmp/c19-nowhere/{station}/{year}", "/plain"])
+        f = rng.choice(["f_{name}.txt{gz}", "{name}{year}{gz}", "plain.dat", "{name:>5}.txt"])
+        fc.update("key1", "directory", d)
+        fc.update("key1", "filename", f)
+        if n % 3 == 0:
+            fc.update("key1", "aliases", "alias_{name}.txt, other.txt")
+        zipped = rng.choice([True, False])
+        dflt = rng.choice([None, "*"])
+        fv = {"year": year, "name": name}
+
+        def sub(t):
+            t = t.replace("{year}", year).replace("{name}", name).replace("{name:>5}", name.rjust(5))
+            if dflt is not None:
+                t = t.replace("{unknown}", dflt).replace("{station}", dflt).replace("{gz}", dflt)
+            return t
+
+        want = P(sub(d)) / P(sub(f))
+        if "{gz}" in want.name:
+            want = want.with_name(want.name.replace("{gz}", ".gz" if zipped else ""))
+        case = {"directory": d, "filename": f, "file_vars": fv, "default": dflt, "is_zipped": zipped, "fallback": bool(n % 2),
+                "aliases": n % 3 == 0}
+        try:
+            got = fc.path("key1", file_vars=fv, default=dflt, is_zipped=zipped, download_missing=False, use_aliases=True)
+        except Exception as ex:  # noqa: BLE001
+            ctx.violate(f"files:path-raises:{type(ex).__name__}", f"FileConfiguration.path raised {type(ex).__name__}: {ex}", case)
+            continue
+        ctx.count("files-path-checked")
+        if got != want:
+            ctx.violate("files:path", f"FileConfiguration.path gave {got}, expected {want}", case)
 
 
 def replay(payload):
